@@ -44,4 +44,14 @@ var props = map[string]propMeta{
 		Assumptions: commonAssumptions},
 	"C07": {Level: "exploration", Rule: "case k: history dominated by InsertOrUpdateMany / InsertOrUpdateBulk (sizes 0-6, offenders at PRNG positions: invalid object, foreign type, conflict with a stored object, conflict between two members, same pointer repeated, updates mixed with inserts; chunk sizes 0,1,2,3,len,len+1); the C07 rule predicts reject / accept / either, the returned count is checked and every read path + sampled searches + the invariant hook must equal the model after each batch. Non-trivial: >= 2 batches of which >= 1 rejected; distinct = fingerprint of configuration + op sequence with outcomes",
 		Assumptions: commonAssumptions},
+	"C13": {Level: "exploration", Rule: "case k: content with heavy ties built by a history; for every indexed field 10 queries (single comparison or And chain of length 2-3 ending on that field): Collect must be non-increasing in the field, Reverse non-decreasing over the same set, Limit(n) and Reverse().Limit(n) for n in {0,1,m-1,m,m+1,random,MaxUint64} must be the prefix of the sequence an identical fresh search returns, One/AssignOne the first element or the no-object error; AssignIndex of every indexed field must be the multiset of the model's values in non-increasing order. Non-trivial: >= 1 ordered query on >= 2 objects; distinct = fingerprint of configuration + content history",
+		Assumptions: append([]string{"order among ties is unspecified; only determinism between two identical searches on an unchanged collection is used (a case where that fails is inconclusive)"}, commonAssumptions...)},
+	"C15": {Level: "exploration", Rule: "case k: history over single, batch and chunked insertion with 25% invalid objects whose validity depends on the transformed value (Tr trimmed by Transform, Up/Lo canonicalised by the schema); a per-object call log checks Transform precedes Validate and Validate saw the transformed + canonicalised value; the model predicts ErrInvalidObject; invalid objects are looked up everywhere; every read must return the transformed value. Non-trivial: >= 1 invalid write and >= 2 accepted; distinct = fingerprint of configuration + op sequence with outcomes",
+		Assumptions: commonAssumptions},
+	"C16": {Level: "exploration", Rule: "case k: configuration with upper/lower on string paths at depth 0,1,2, through nil pointers and an embedded struct, often on a unique key; strings include case pairs that differ between ToUpper and ToLower; after every step reads must return canonical values, re-saved reads are unchanged, and 3x6 differently-cased probes per step on constrained paths (indexed or not) are compared with the model, which canonicalises probe and stored value with strings.ToUpper/ToLower. Non-trivial: >= 1 constrained path probed and >= 2 accepted writes",
+		Assumptions: commonAssumptions},
+	"C12": {Level: "exploration", Rule: "case k: one abstract history (objects named by creation slot, choices driven by the configuration-independent model) replayed under a baseline (all storage flags off, searched fields indexed) and 9 variants (searched fields unindexed; cache; gzip; async with frozen flusher; async with ticking flusher; lower-case names; custom extension; everything on; unindexed+cache+async); after every step a normalised observation (outcome class, Count, All, Get/Exist of the most recent and of a deleted object, 8 model-drawn searches, 4 unevaluable searches: invalid pattern / unknown operator / ill-typed probe / unknown field, Control when nothing is pending) is compared line by line between baseline and variant. Non-trivial: >= 1 compared step and >= 2 accepted writes; distinct = fingerprint of baseline configuration + op sequence",
+		Assumptions: commonAssumptions},
+	"C20": {Level: "exploration", Rule: "case k: collection grown one by one (2-17 inserts) so that slice appends both reallocate and not; up to 4 rounds: a search (every operator, single or And) is evaluated and a twin collected at once (M0), 1-6 later writes land before/inside/after the range, then the outstanding search is consumed through Collect / Assign / One / Delete / Reverse.Limit: every object must be in M0, at most once, deleted members must be errors or omitted, without error the result is M0 minus deleted; Len must not change; a late Or/And refinement must leave the index intact (invariant hook + 25 searches). Non-trivial: >= 1 scenario with >= 1 write in between",
+		Assumptions: commonAssumptions},
 }
